@@ -907,6 +907,10 @@ pub fn run_c14(id: &str, tier: &str, seed: u64) -> i32 {
                     }
                     let (si, fi, r) = items[i];
                     let rs = mix(mix(seed, hash_str("C14")), (si as u64) << 20 | (fi as u64) << 8 | r);
+                    if fi == 0 {
+                        let _ = std::panic::catch_unwind(std::panic::AssertUnwindSafe(|| run_intruder_pair(&mut st, &scripts[si].0, &scripts[si].1, rs)));
+                        crate::sim::PANICS.with(|p| p.borrow_mut().clear());
+                    }
                     let res = std::panic::catch_unwind(std::panic::AssertUnwindSafe(|| run_pair(&mut st, &scripts[si].0, &scripts[si].1, FREEZE_POINTS[fi], rs)));
                     if res.is_err() {
                         crate::sim::PANICS.with(|p| p.borrow_mut().clear());
@@ -931,8 +935,8 @@ pub fn run_c14(id: &str, tier: &str, seed: u64) -> i32 {
             classes: BTreeMap::new(),
             violations: st.violations,
             samples: st.samples.iter().map(|s| json!(s)).collect(),
-            rules: vec!["R14a", "R14b", "R14c"],
-            rule_text: "differential: payment B (1-3 HTLCs; funded / partial / rejected; fixed or amountless invoice; every pay outcome; fused or split RPC replies) is run alone and next to a payment A frozen at one of 9 suspension points (each RPC kind of its lifecycle, or its MPP timer) under the same canonical schedule; B's RPC sequence, replies and answers must be identical and its answer times within 25 ms; a case is one (B scenario, freeze point) pair; distinct = distinct (freeze point, B shape, pay outcome) classes in which A was verifiably frozen",
+            rules: vec!["R14a", "R14b", "R14c", "R14d"],
+            rule_text: "differential: payment B (1-3 HTLCs; funded / partial / rejected; fixed or amountless invoice; every pay outcome; fused or split RPC replies) is run alone and next to a payment A frozen at one of 9 suspension points (each RPC kind of its lifecycle, or its MPP timer) under the same canonical schedule; B's RPC sequence, replies and answers must be identical and its answer times within 25 ms; plus B alone vs B with an HTLC of another hash that carries B's invoice (R14d: nothing pooled across hashes); a case is one (B scenario, freeze point) pair; distinct = distinct (freeze point, B shape, pay outcome) classes in which A was verifiably frozen",
             extra: json!({"b_calls_compared": st.b_calls_compared, "pairs_where_A_did_not_reach_the_freeze_point": st.not_frozen, "freeze_points": FREEZE_POINTS.iter().map(|f| format!("{}#{}", f.0, f.1)).collect::<Vec<_>>()}),
             assumptions: vec!["attempt ids and pay labels (wall clock) are abstracted before comparing".into(), "B scenarios are scheduled canonically so that adding A cannot legitimately change B's interleaving".into()],
             inconclusive: vec![],
